@@ -128,80 +128,141 @@ end
 /-! ### limited vs unlimited version of an operator -/
 
 section
-variable {σ ε ρ : Type}
+variable {σL σU ε ρ : Type}
 
-/-- step-wise relation between the limited (`tL`) and the unlimited (`tU`) version of an operator:
-    emissions are `LimRel`-related, an error-free limited emission is THE unlimited emission (and
-    leads to the same state), and an `Err` item is answered with an `Err` first -/
-structure StepRel (isLimit : ε → Bool) (tL tU : Trans σ ε ρ) : Prop where
-  done : ∀ st, tL.done st = tU.done st
-  step : ∀ st x, LimRel isLimit (tL.step st x).2 (tU.step st x).2 ∧
-    (allOk (tL.step st x).2 = true → tL.step st x = tU.step st x)
-  flush : ∀ st, LimRel isLimit (tL.flush st) (tU.flush st)
-  fwd : ∀ st e, tL.done st = false → ∃ e' rest, (tL.step st (.error e)).2 = .error e' :: rest ∧
-    (e' = e ∨ isLimit e' = true)
+/-- step-wise relation between the limited (`tL`) and the unlimited (`tU`) version of an operator,
+    over related states (`sim`): emissions are `LimRel`-related, an error-free limited emission is THE
+    unlimited emission (and leads to related states), and an `Err` item is answered with an `Err` first -/
+structure StepRel (isLimit : ε → Bool) (sim : σL → σU → Prop) (tL : Trans σL ε ρ) (tU : Trans σU ε ρ) : Prop where
+  done : ∀ a b, sim a b → tL.done a = tU.done b
+  /-- either the emissions are related (and an error-free limited emission is the unlimited one,
+      leading to related states), or the limited side stops with an error that the unlimited side,
+      having emitted the same error-free items, owes as its very next item whatever input follows -/
+  step : ∀ a b x, sim a b →
+    (LimRel isLimit (tL.step a x).2 (tU.step b x).2 ∧
+      (allOk (tL.step a x).2 = true → (tL.step a x).2 = (tU.step b x).2 ∧ sim (tL.step a x).1 (tU.step b x).1)) ∨
+    (∃ P e rest, (tL.step a x).2 = P ++ .error e :: rest ∧ allOk P = true ∧ (tU.step b x).2 = P ∧
+      ∀ xs, cut (tU.run (tU.step b x).1 xs) = [.error e]) ∨
+    -- or the limited side emits nothing now and owes an error: a limit error, or the error the
+    -- unlimited side emits first with this step
+    ((tL.step a x).2 = [] ∧ ∃ e, (∀ xs, cut (tL.run (tL.step a x).1 xs) = [.error e]) ∧
+      (isLimit e = true ∨ ∃ rest, (tU.step b x).2 = .error e :: rest))
+  flush : ∀ a b, sim a b → LimRel isLimit (tL.flush a) (tU.flush b)
+  /-- an `Err` item is answered with an `Err` first: the same error, a limit error, or an error the
+      unlimited side owes as its next item anyway -/
+  fwd : ∀ a b e, sim a b → tL.done a = false → ∃ e' rest, (tL.step a (.error e)).2 = .error e' :: rest ∧
+    (e' = e ∨ isLimit e' = true ∨ ∀ xs, cut (tU.run b xs) = [.error e'])
+
+theorem LimRel.of_owes (isLimit : ε → Bool) (P : Stream ε ρ) (e : ε) (rest x u : Stream ε ρ)
+    (hP : allOk P = true) (hu : cut u = [.error e]) :
+    LimRel isLimit (P ++ .error e :: rest ++ x) (P ++ u) := by
+  left
+  rw [List.append_assoc, cut_append_of_allOk _ _ hP, cut_append_of_allOk _ _ hP, hu]
+  rfl
 
 /-- lockstep over a common input prefix -/
-theorem StepRel.lockstep {isLimit : ε → Bool} {tL tU : Trans σ ε ρ} (h : StepRel isLimit tL tU)
-    (P : Stream ε ρ) (st : σ) (ta tb : Stream ε ρ)
-    (k : ∀ st', LimRel isLimit (tL.run st' ta) (tU.run st' tb)) :
-    LimRel isLimit (tL.run st (P ++ ta)) (tU.run st (P ++ tb)) := by
-  induction P generalizing st with
-  | nil => exact k st
+theorem StepRel.lockstep {isLimit : ε → Bool} {sim : σL → σU → Prop} {tL : Trans σL ε ρ} {tU : Trans σU ε ρ}
+    (h : StepRel isLimit sim tL tU) (P : Stream ε ρ) (a : σL) (b : σU) (hab : sim a b) (ta tb : Stream ε ρ)
+    (k : ∀ a' b', sim a' b' → LimRel isLimit (tL.run a' ta) (tU.run b' tb)) :
+    LimRel isLimit (tL.run a (P ++ ta)) (tU.run b (P ++ tb)) := by
+  induction P generalizing a b with
+  | nil => exact k a b hab
   | cons x xs ih =>
-    simp only [List.cons_append, Trans.run_cons, ← h.done st]
-    cases hd : tL.done st with
+    simp only [List.cons_append, Trans.run_cons, ← h.done a b hab]
+    cases hd : tL.done a with
     | true => exact .refl _ _
     | false =>
       simp only [Bool.false_eq_true, if_false]
-      obtain ⟨hrel, heq⟩ := h.step st x
-      cases ho : allOk (tL.step st x).2 with
-      | true =>
-        rw [← heq ho]
-        exact LimRel.append_left _ _ _ _ (ih _)
-      | false => exact LimRel.append_of_err _ _ _ _ _ hrel ho
+      rcases h.step a b x hab with ⟨hrel, heq⟩ | ⟨P, e, rest, hL, hP, hU, howe⟩ | ⟨hL, e, howe, hle⟩
+      · cases ho : allOk (tL.step a x).2 with
+        | true =>
+          obtain ⟨he, hs⟩ := heq ho
+          rw [← he]
+          exact LimRel.append_left _ _ _ _ (ih _ _ hs)
+        | false => exact LimRel.append_of_err _ _ _ _ _ hrel ho
+      · rw [hL, hU]
+        exact LimRel.of_owes isLimit P e rest _ _ hP (howe _)
+      · rw [hL, List.nil_append]
+        rcases hle with hl | ⟨rest, hU⟩
+        · exact Or.inr ⟨[], e, howe _, hl, ⟨_, rfl⟩⟩
+        · left; rw [howe, hU]; rfl
 
 /-- the operator maps `LimRel`-related inputs to `LimRel`-related outputs -/
-theorem StepRel.run {isLimit : ε → Bool} {tL tU : Trans σ ε ρ} (h : StepRel isLimit tL tU)
-    (st : σ) (a b : Stream ε ρ) (hab : LimRel isLimit a b) :
-    LimRel isLimit (tL.run st a) (tU.run st b) := by
-  rcases hab with hc | ⟨pre, e, hc, hl, hp⟩
-  · rcases of_cut_eq a b hc with ⟨rfl, _⟩ | ⟨pre, e, ta, tb, _, rfl, rfl⟩
-    · -- the same error-free input: lockstep to the end, then the flushes
-      have := h.lockstep a st [] [] (fun st' => by
-        simp only [Trans.run_nil, ← h.done st']
-        cases tL.done st' with
+theorem StepRel.run {isLimit : ε → Bool} {sim : σL → σU → Prop} {tL : Trans σL ε ρ} {tU : Trans σU ε ρ}
+    (h : StepRel isLimit sim tL tU) (a : σL) (b : σU) (hab : sim a b) (sa sb : Stream ε ρ)
+    (hs : LimRel isLimit sa sb) : LimRel isLimit (tL.run a sa) (tU.run b sb) := by
+  rcases hs with hc | ⟨pre, e, hc, hl, hp⟩
+  · rcases of_cut_eq sa sb hc with ⟨rfl, _⟩ | ⟨pre, e, ta, tb, _, rfl, rfl⟩
+    · have := h.lockstep sa a b hab [] [] (fun a' b' hab' => by
+        simp only [Trans.run_nil, ← h.done a' b' hab']
+        cases tL.done a' with
         | true => exact .refl _ _
-        | false => exact h.flush st')
+        | false => exact h.flush a' b' hab')
       simpa using this
-    · -- common prefix through the same first error
-      refine h.lockstep pre st _ _ (fun st' => ?_)
-      simp only [Trans.run_cons, ← h.done st']
-      cases hd : tL.done st' with
+    · refine h.lockstep pre a b hab _ _ (fun a' b' hab' => ?_)
+      simp only [Trans.run_cons, ← h.done a' b' hab']
+      cases hd : tL.done a' with
       | true => exact .refl _ _
       | false =>
         simp only [Bool.false_eq_true, if_false]
-        obtain ⟨hrel, _⟩ := h.step st' (.error e)
-        obtain ⟨e', r', he, _⟩ := h.fwd st' e hd
-        exact LimRel.append_of_err _ _ _ _ _ hrel (by rw [he]; simp)
-  · -- the limited input ends (for its consumer) with a limit error after a prefix of the unlimited one
-    obtain ⟨_, ta, rfl⟩ := of_cut_eq_append_error a pre e hc
+        obtain ⟨e', r', he, _⟩ := h.fwd a' b' e hab' hd
+        rcases h.step a' b' (.error e) hab' with ⟨hrel, _⟩ | ⟨P, e2, rest, hL, hP, hU, howe⟩ | ⟨hL, _⟩
+        · exact LimRel.append_of_err _ _ _ _ _ hrel (by rw [he]; simp)
+        · rw [hL, hU]
+          exact LimRel.of_owes isLimit P e2 rest _ _ hP (howe _)
+        · rw [he] at hL; cases hL
+  · obtain ⟨_, ta, rfl⟩ := of_cut_eq_append_error sa pre e hc
     obtain ⟨tb, rfl⟩ := hp
-    refine h.lockstep pre st _ _ (fun st' => ?_)
+    refine h.lockstep pre a b hab _ _ (fun a' b' hab' => ?_)
     rw [Trans.run_cons]
-    cases hd : tL.done st' with
+    cases hd : tL.done a' with
     | true =>
-      rw [Trans.run_done tU st' tb (by rw [← h.done st']; exact hd)]
+      rw [Trans.run_done tU b' tb (by rw [← h.done a' b' hab']; exact hd)]
       exact .refl _ _
     | false =>
       simp only [Bool.false_eq_true, if_false]
-      obtain ⟨e', r', he, hle⟩ := h.fwd st' e hd
+      obtain ⟨e', r', he, hle⟩ := h.fwd a' b' e hab' hd
       rw [he]
-      have hl' : isLimit e' = true := by
-        rcases hle with rfl | h'
-        · exact hl
-        · exact h'
-      exact LimRel.of_stop isLimit [] e' _ _ hl' ⟨_, rfl⟩
+      rcases hle with rfl | h' | howe
+      · exact LimRel.of_stop isLimit [] _ _ _ hl ⟨_, rfl⟩
+      · exact LimRel.of_stop isLimit [] e' _ _ h' ⟨_, rfl⟩
+      · have := LimRel.of_owes isLimit [] e' r' (tL.run (tL.step a' (.error e)).1 ta) (tU.run b' tb) rfl (howe tb)
+        simpa using this
+
+end
+
+/-! the simple form: same state type, states stay EQUAL while the limited emission is error-free -/
+
+section
+variable {σ ε ρ : Type}
+
+structure StepRelCore (isLimit : ε → Bool) (tL tU : Trans σ ε ρ) : Prop where
+  done : ∀ st, tL.done st = tU.done st
+  step : ∀ st x, LimRel isLimit (tL.step st x).2 (tU.step st x).2 ∧
+    (allOk (tL.step st x).2 = true → tL.step st x = tU.step st x)
+  fwd : ∀ st e, tL.done st = false → ∃ e' rest, (tL.step st (.error e)).2 = .error e' :: rest ∧
+    (e' = e ∨ isLimit e' = true)
+
+structure StepRel0 (isLimit : ε → Bool) (tL tU : Trans σ ε ρ) : Prop extends StepRelCore isLimit tL tU where
+  flush : ∀ st, LimRel isLimit (tL.flush st) (tU.flush st)
+
+theorem StepRel0.toStepRel {isLimit : ε → Bool} {tL tU : Trans σ ε ρ} (h : StepRel0 isLimit tL tU) :
+    StepRel isLimit Eq tL tU where
+  done a b hab := by subst hab; exact h.done a
+  step a b x hab := by
+    subst hab
+    obtain ⟨hrel, heq⟩ := h.step a x
+    exact Or.inl ⟨hrel, fun ho => by rw [heq ho]; exact ⟨rfl, rfl⟩⟩
+  flush a b hab := by subst hab; exact h.flush a
+  fwd a b e hab hd := by
+    subst hab
+    obtain ⟨e', rest, he, hl⟩ := h.fwd a e hd
+    exact ⟨e', rest, he, hl.elim Or.inl (fun x => Or.inr (Or.inl x))⟩
+
+theorem StepRel0.run {isLimit : ε → Bool} {tL tU : Trans σ ε ρ} (h : StepRel0 isLimit tL tU)
+    (st : σ) (a b : Stream ε ρ) (hab : LimRel isLimit a b) :
+    LimRel isLimit (tL.run st a) (tU.run st b) :=
+  h.toStepRel.run st st rfl a b hab
 
 end
 
